@@ -9,6 +9,7 @@
 //   redump <stack> <hex>               -> "ok <unread> | <hex of dump of the loaded field>" | "error <class>"
 //   fload  <stack> cut|short|half|throw <arg> <hex>   (fault-injecting streambuf)
 //   prefixes <stack> <hex>             -> one char per k in 0..len: E(xception) / F(ield returned)
+//   xprefixes <stack> <hex>            -> the same with is.exceptions(failbit|badbit) enabled on the caller's stream
 //   alts   <stack> <hex> off:word ...  -> one char per altered 4-byte word
 //   nthall <stack> short|half|throw <hex> -> "<clean outcome> <reads> {E|F}<bytes delivered> ..." for n = 1..reads
 //   narrow <u64 bit patterns...>       -> bits of static_cast<float>(double)
